@@ -386,6 +386,7 @@ static bool Inject(Case & c, rb::Client * from, MessageRef m, const char * stepN
    // handler x precondition cells, from the state observed right now
    const bool hasKey = m()->HasName(PR_NAME_KEYS, B_STRING_TYPE), hasFilter = m()->HasName(PR_NAME_FILTERS, B_MESSAGE_TYPE);
    uint32 before = 0; size_t paramsBefore = 0;
+   if (what == PR_COMMAND_JETTISONRESULTS) { const Queue<MessageRef> * fq = QOf(from); if (fq) for (uint32 i = 0; i < fq->GetNumItems(); i++) if ((*fq)[i]() && (*fq)[i]()->what == PR_RESULT_DATAITEMS && (*fq)[i]()->HasName(PR_NAME_REMOVED_DATAITEMS)) { vh::stat(hasKey ? "cell_jettres_key_with_queued_removal_notices" : "cell_jettres_nokey_with_queued_removal_notices"); break; } }
    if (what == PR_COMMAND_JETTISONRESULTS) { before = QCount(from, PR_RESULT_DATAITEMS); vh::stat(std::string("cell_jettres_") + (hasKey ? (hasFilter ? "keyfilter_" : "key_") : "nokey_") + Bucket(before)); }
    else if (what == PR_COMMAND_JETTISONDATATREES) { before = QCount(from, PR_RESULT_DATATREES); vh::stat(std::string("cell_jetttrees_") + (m()->HasName(PR_NAME_TREE_REQUEST_ID, B_STRING_TYPE) ? "id_" : "noid_") + Bucket(before)); }
    else if (what == PR_COMMAND_SETDATA) { SetDataNodeFlags f; if (m()->FindFlat(PR_NAME_FLAGS, f).IsOK() && f.IsBitSet(SETDATANODE_FLAG_ENABLESUPERCEDE)) vh::stat(std::string("cell_supersede_subscriber_") + Bucket(QCount(c.sub, PR_RESULT_DATAITEMS))); }
@@ -668,7 +669,7 @@ static void R_ResultsJettison(Case & c)
    if (Ch(3, 4)) SetReading(c, s, false);
    if (Ch(4, 5)) Inject(c, s, M_Subscribe(c, s, Ch(2, 3) ? (int)(1 + R(3)) : -1), "subscribe");
    const int n = R(6);
-   for (int i = 0; i < n && !Done(c); i++) { if (Ch(2, 3)) Inject(c, o, M_SetData(c, o, true), "other-updates"); else Inject(c, s, M_GetData(c, s), "getdata-queues-result"); }
+   for (int i = 0; i < n && !Done(c); i++) { const uint32_t w = R(6); if (w < 3) Inject(c, o, M_SetData(c, o, true), "other-updates"); else if (w < 4) Inject(c, o, M_RemoveData(c, o), "other-removes-nodes"); else Inject(c, s, M_GetData(c, s), "getdata-queues-result"); }
    const int nj = 1 + R(2);
    for (int i = 0; i < nj && !Done(c); i++) Inject(c, s, M_JettResults(c, s), "jettison-results");
    if (Ch(1, 2)) SetReading(c, s, true);
